@@ -160,8 +160,7 @@ func IsSuccessReturn(r *ssa.Return) (success bool, maybe bool) {
 			any = true
 			continue
 		}
-		// an interface made from a concrete value is a non-nil error
-		if _, ok := v.(*ssa.MakeInterface); ok {
+		if definitelyNonNilErr(v) {
 			continue
 		}
 		any = true
@@ -251,4 +250,258 @@ func ifaceHasMethodObj(it *types.Interface, m *types.Func) bool {
 		}
 	}
 	return false
+}
+
+// ---------------------------------------------------------------------------
+// Canon: a structural canonical form of a value (a tiny value numbering), used
+// to decide "the same path / the same object" where go/ssa has no CSE.
+
+var pureCallees = map[string]bool{
+	"(*services/keepstore.UnixVolume).blockPath": true,
+	"(*services/keepstore.UnixVolume).blockDir":  true,
+	"(*os.File).Name":                            true,
+	"(*os.File).Fd":                              true,
+	"path/filepath.Join":                         true,
+	"fmt.Sprintf":                                true,
+	"builtin.len":                                true,
+	"(os.FileInfo).Name":                         true,
+	"(io/fs.FileInfo).Name":                      true,
+	"(os.FileInfo).ModTime":                      true,
+	"(io/fs.FileInfo).ModTime":                   true,
+	"(time.Time).UnixNano":                       true,
+	"time.Since":                                 true,
+	"(sdk/go/arvados.Duration).Duration":         true,
+	"strings.HasPrefix":                          true,
+}
+
+func Canon(v ssa.Value) string {
+	if v == nil {
+		return "<nil>"
+	}
+	v = Resolve1(v)
+	switch x := v.(type) {
+	case *ssa.Parameter:
+		return "param:" + x.Name()
+	case *ssa.FreeVar:
+		return "free:" + x.Name()
+	case *ssa.Const:
+		return x.String()
+	case *ssa.Global:
+		return "global:" + shortName(x.String())
+	case *ssa.Call:
+		name := CalleeName(x.Common())
+		if pureCallees[name] {
+			s := name + "("
+			args := x.Common().Args
+			if x.Common().IsInvoke() {
+				s += Canon(x.Common().Value) + ";"
+			}
+			for i, a := range args {
+				if i > 0 {
+					s += ","
+				}
+				if elems, ok := VarargElems(a); ok {
+					s += "["
+					for _, e := range elems {
+						s += Canon(e) + ","
+					}
+					s += "]"
+				} else {
+					s += Canon(a)
+				}
+			}
+			return s + ")"
+		}
+	case *ssa.UnOp:
+		if x.Op == token.MUL {
+			if t, f, base, ok := FieldName(x.X); ok {
+				return t + "." + f + "{" + Canon(base) + "}"
+			}
+			if g, ok := x.X.(*ssa.Global); ok {
+				return "global:" + shortName(g.String())
+			}
+			if ia, ok := x.X.(*ssa.IndexAddr); ok {
+				return Canon(ia.X) + "[" + Canon(ia.Index) + "]"
+			}
+		}
+		if x.Op == token.NOT {
+			return "!" + Canon(x.X)
+		}
+	case *ssa.Field:
+		if t, f, base, ok := FieldName(x); ok {
+			return t + "." + f + "{" + Canon(base) + "}"
+		}
+	case *ssa.FieldAddr:
+		if t, f, base, ok := FieldName(x); ok {
+			return "&" + t + "." + f + "{" + Canon(base) + "}"
+		}
+	case *ssa.BinOp:
+		return "(" + Canon(x.X) + x.Op.String() + Canon(x.Y) + ")"
+	case *ssa.Extract:
+		return Canon(x.Tuple) + "#" + fmt.Sprint(x.Index)
+	case *ssa.Index:
+		return Canon(x.X) + "[" + Canon(x.Index) + "]"
+	}
+	fn := "?"
+	if in, ok := v.(ssa.Instruction); ok && in.Parent() != nil {
+		fn = in.Parent().Name()
+	}
+	return "%" + fn + "." + v.Name()
+}
+
+func SameCanon(a, b ssa.Value) bool { return Canon(a) == Canon(b) }
+
+// CanonVP: v has the given canonical form.
+func CanonVP(c string) VP { return func(v ssa.Value) bool { return Canon(v) == c } }
+
+// CanonHas: canonical form contains substring.
+func CanonHas(sub string) VP {
+	return func(v ssa.Value) bool { return containsStr(Canon(v), sub) }
+}
+
+func containsStr(s, sub string) bool {
+	return len(sub) == 0 || (len(s) >= len(sub) && indexStr(s, sub) >= 0)
+}
+
+func indexStr(s, sub string) int {
+	for i := 0; i+len(sub) <= len(s); i++ {
+		if s[i:i+len(sub)] == sub {
+			return i
+		}
+	}
+	return -1
+}
+
+// ChainStep is one call in an ordered must-succeed chain.
+type ChainStep struct {
+	Desc string
+	Call ssa.CallInstruction
+}
+
+// CheckChain verifies for consecutive steps a→b and last→final: a's block
+// dominates b's, and every path from a to b passes "a's error == nil".
+func (r *R) CheckChain(rule string, fn *ssa.Function, steps []ChainStep, final ssa.Instruction, finalDesc string) bool {
+	all := true
+	for i, s := range steps {
+		var next ssa.Instruction
+		var nd string
+		if i+1 < len(steps) {
+			next = steps[i+1].Call.(ssa.Instruction)
+			nd = steps[i+1].Desc
+		} else {
+			next = final
+			nd = finalDesc
+		}
+		a := s.Call.(ssa.Instruction)
+		ok := Before(a, next) && (a.Block() == next.Block() || a.Block().Dominates(next.Block()))
+		if ok && ErrIndex(s.Call.Common()) >= 0 {
+			g, _ := Guard(fn, a, next, ErrNilC(s.Call))
+			ok = g
+		}
+		all = r.Check(ok, rule, fn, s.Desc+" → "+nd, a.Pos(),
+			"precedes on every path, with its error checked nil", "ordering/err-check broken: "+nd+" is reachable without "+s.Desc+" having succeeded") && all
+	}
+	return all
+}
+
+// fileOf returns the base file name containing fn.
+func (w *World) fileOf(fn *ssa.Function) string {
+	p := fn.Pos()
+	for f := fn; !p.IsValid() && f.Parent() != nil; f = f.Parent() {
+		p = f.Parent().Pos()
+	}
+	if !p.IsValid() {
+		return ""
+	}
+	name := w.Fset.Position(p).Filename
+	for i := len(name) - 1; i >= 0; i-- {
+		if name[i] == '/' {
+			return name[i+1:]
+		}
+	}
+	return name
+}
+
+// GlobalInitCallArg: for `var G = f(const)` returns the string constant passed
+// as first argument in the package initialiser.
+func (w *World) GlobalRegexLiteral(short string) (string, bool) {
+	i := lastDot(short)
+	pkg := w.SSAPkg(short[:i])
+	if pkg == nil {
+		return "", false
+	}
+	g, _ := pkg.Members[short[i+1:]].(*ssa.Global)
+	if g == nil {
+		return "", false
+	}
+	init := pkg.Func("init")
+	var lit string
+	found := false
+	allInstrs(init, func(in ssa.Instruction) {
+		if s, ok := in.(*ssa.Store); ok && s.Addr == ssa.Value(g) {
+			if c, ok := Strip(s.Val).(*ssa.Call); ok && CalleeName(c.Common()) == "regexp.MustCompile" {
+				if str, ok := ConstString(c.Call.Args[0]); ok {
+					lit, found = str, true
+				}
+			}
+		}
+	})
+	return lit, found
+}
+
+func lastDot(s string) int {
+	for i := len(s) - 1; i >= 0; i-- {
+		if s[i] == '.' {
+			return i
+		}
+	}
+	return -1
+}
+
+// definitelyNonNilErr: an interface made from a concrete value, or the result
+// of fmt.Errorf / errors.New, is a non-nil error.
+func definitelyNonNilErr(v ssa.Value) bool {
+	switch x := v.(type) {
+	case *ssa.MakeInterface:
+		return true
+	case *ssa.Call:
+		switch CalleeName(x.Common()) {
+		case "fmt.Errorf", "errors.New":
+			return true
+		}
+	}
+	return false
+}
+
+// MaybeSuccess: the return may yield a nil error: some possible operand is not
+// definitely non-nil and is not guarded by a dominating `v != nil` test.
+func MaybeSuccess(fn *ssa.Function, ret *ssa.Return) bool {
+	_, maybe := IsSuccessReturn(ret)
+	if !maybe {
+		return false
+	}
+	return !nonNilGuarded(fn, ret)
+}
+
+// rootBase strips field selections / loads to find the root object of an access path.
+func rootBase(v ssa.Value) ssa.Value {
+	for {
+		v = Strip(v)
+		switch x := v.(type) {
+		case *ssa.FieldAddr:
+			v = x.X
+		case *ssa.Field:
+			v = x.X
+		case *ssa.UnOp:
+			if x.Op == token.MUL {
+				if _, ok := x.X.(*ssa.FieldAddr); ok {
+					v = x.X
+					continue
+				}
+			}
+			return v
+		default:
+			return v
+		}
+	}
 }
